@@ -35,14 +35,16 @@ Definition wf_pl (m : mmodel) (c : circ) (pl : list nat) : bool :=
 Definition placement_of (c : circ) (opl : option (list nat)) : list nat :=
   match opl with Some p => p | None => seq 0 (cw c) end.
 
-(* None: outside the well-formed inputs (the code raises / is unspecified) *)
+(* None: outside the well-formed inputs (the code raises / is unspecified).  The coupling test asks for the
+   edge in EITHER orientation (repo commit cf72da2; before it only the raw tuple was tested). *)
 Definition is_compatible (m : mmodel) (c : circ) (opl : option (list nat)) : option bool :=
   if mn m <? cw c then Some false
   else if existsb (fun o => negb (gmem (og o) (mgates m))) (cops c) then Some false
   else
     let pl := placement_of c opl in
     if negb (wf_pl m c pl && wf_circ c) then None
-    else if existsb (fun e => negb (raw_mem (nth (fst e) pl 0) (nth (snd e) pl 0) (edges_norm (medges m))))
+    else if existsb (fun e => negb (raw_mem (nth (fst e) pl 0) (nth (snd e) pl 0) (edges_norm (medges m)))
+                              && negb (raw_mem (nth (snd e) pl 0) (nth (fst e) pl 0) (edges_norm (medges m))))
                     (circ_edges c) then Some false
     else if existsb (fun ir => negb (snd ir =? nth (nth (fst ir) pl 0) (mrad m) 0))
                     (combine (seq 0 (cw c)) (crad c)) then Some false
